@@ -1184,6 +1184,65 @@ func (a *Analysis) RegexPreludeCommentFailures() (out []PreludeCommentFailure, p
 	return out, preludes
 }
 
+// ---------- a comment between a directive and the parenthesis of its context ----------
+
+// CommentBeforeOpenFailure: a configuration in which '(' opens the explicit context of the directive, but a comment
+// sign at the same place is refused or handed to a body reader (which then meets the parenthesis).
+type CommentBeforeOpenFailure struct {
+	State, Stack, What, Trace string
+}
+
+// CommentBeforeOpenFailures: in every explored configuration in which the byte '(' is reported as ContextOpen, the
+// comment sign starts a comment of the API description: it is not an error and it begins no Schema / Text / Enum
+// lexeme. Returns the failures and the number of such configurations.
+func (a *Analysis) CommentBeforeOpenFailures() (out []CommentBeforeOpenFailure, sites int) {
+	ex := a.ex
+	saveFinds := ex.finds
+	ex.finds = map[string]Finding{}
+	defer func() { ex.finds = saveFinds }()
+	seenKey := map[string]bool{}
+	for id, c := range ex.order {
+		if len(c.Replay) > 0 || c.Open != "" {
+			continue
+		}
+		key := c.St + "|" + c.Stack
+		if seenKey[key] {
+			continue
+		}
+		seenKey[key] = true
+		opens := false
+		for _, s := range ex.apply(c, id, c.St, int(ex.rep['(']), 0, 0) {
+			for _, e := range s.evs {
+				if strings.HasPrefix(e, "ContextOpen@") {
+					opens = true
+				}
+			}
+		}
+		if !opens {
+			continue
+		}
+		sites++
+		succ := ex.apply(c, id, c.St, int(ex.rep['#']), 0, 0)
+		if len(succ) == 0 {
+			out = append(out, CommentBeforeOpenFailure{State: c.St, Stack: c.Stack, What: "'#' is an error", Trace: ex.trace(id)})
+			continue
+		}
+		for _, s := range succ {
+			body := ""
+			for _, e := range s.evs {
+				if strings.HasPrefix(e, "Schema") || strings.HasPrefix(e, "Text") || strings.HasPrefix(e, "Enum") {
+					body = e
+				}
+			}
+			if body != "" || strings.Contains(strings.ToLower(s.c.St), "schema") {
+				out = append(out, CommentBeforeOpenFailure{State: c.St, Stack: c.Stack, What: "'#' goes to the reader of the body (" + body + " -> " + s.c.St + ")", Trace: ex.trace(id)})
+				break
+			}
+		}
+	}
+	return out, sites
+}
+
 // ---------- the final line break is insignificant ----------
 
 // FinalNewlineDivergence: a configuration in which the end of the input is accepted but a line break followed by the
